@@ -154,3 +154,23 @@ package ugm
 //@   at[usertracker] call ugm.Manager.setUserLimits#1: assert arg0 == m && arg1 == user && arg2 == limitConfig && arg3 == queuePath
 //@   at[grouptracker] call ugm.Manager.setGroupLimits#1: assert arg0 == m && arg1 == group && arg2 == limitConfig && arg3 == queuePath
 //@   at[down] call ugm.Manager.internalProcessConfig#1: assert arg0 == m && arg3 == newUserLimits && arg4 == newGroupLimits && arg5 == newUserWildCardLimitsConfig && arg6 == newGroupWildCardLimitsConfig && arg7 == newConfiguredGroups
+
+// a reload parses the whole new configuration into fresh ledgers, compares the limits in force against exactly those
+// ledgers (clean-up of dropped limits, wild card clean-up, wild card application - in that order, each once) and only
+// then switches the manager over to them: the limits in force afterwards are those of the latest configuration
+//@ func (m *Manager) UpdateConfig(config configs.QueueConfig, queuePath string) (err error)
+//@   props C05
+//@   sweep
+//@   mode nopanic=off
+//@   at[parse] call ugm.Manager.internalProcessConfig#1: assert arg0 == m && arg2 == queuePath && arg3 == userLimits && arg4 == groupLimits && arg5 == userWildCardLimitsConfig && arg6 == groupWildCardLimitsConfig && arg7 == configuredGroups && userLimits != groupLimits && userWildCardLimitsConfig != groupWildCardLimitsConfig
+//@   at[dropped] call ugm.Manager.clearEarlierSetLimits#1: assert arg0 == m && arg1 == userLimits && arg2 == groupLimits && ncalls(ugm.Manager.internalProcessConfig) == 1
+//@   at[wilddropped] call ugm.Manager.clearEarlierSetUserWildCardLimits#1: assert arg0 == m && arg1 == userWildCardLimitsConfig && arg2 == userLimits && ncalls(ugm.Manager.clearEarlierSetLimits) == 1
+//@   at[wildapplied] call ugm.Manager.applyWildCardUserLimits#1: assert arg0 == m && arg1 == userWildCardLimitsConfig && arg2 == userLimits && ncalls(ugm.Manager.clearEarlierSetUserWildCardLimits) == 1
+//@   at[switch] call ugm.Manager.replaceLimitConfigs#1: assert arg0 == m && arg1 == userLimits && arg2 == groupLimits && arg3 == userWildCardLimitsConfig && arg4 == groupWildCardLimitsConfig && arg5 == configuredGroups && ncalls(ugm.Manager.applyWildCardUserLimits) == 1
+//@   ensures[switched] err == nil ==> ncalls(ugm.Manager.replaceLimitConfigs) == 1
+//@   ensures[untouched] err != nil ==> ncalls(ugm.Manager.replaceLimitConfigs) == 0 && ncalls(ugm.Manager.clearEarlierSetLimits) == 0 && ncalls(ugm.Manager.applyWildCardUserLimits) == 0
+
+//@ func (m *Manager) replaceLimitConfigs(newUserLimits map[string]map[string]*LimitConfig, newGroupLimits map[string]map[string]*LimitConfig, newUserWildCardLimitsConfig map[string]*LimitConfig, newGroupWildCardLimitsConfig map[string]*LimitConfig, newConfiguredGroups map[string][]string)
+//@   props C05
+//@   mode nopanic=off
+//@   ensures[installed] m.userLimits == newUserLimits && m.groupLimits == newGroupLimits && m.userWildCardLimitsConfig == newUserWildCardLimitsConfig && m.groupWildCardLimitsConfig == newGroupWildCardLimitsConfig && m.configuredGroups == newConfiguredGroups
